@@ -149,25 +149,34 @@ def compile_program(ctx, name, tus, flags, rejected=None):
     return exe
 
 
-def gen_program(ctx, ncases, nstmts, maxdepth, per_tu):
-    """returns (cases, tus, infos)"""
-    r = ctx.rng.fork("c01-program")
-    calc = None
+def load_calc():
     tj = os.path.join(GEN_DIR, "rules.json")
     if os.path.exists(tj):
         from checks import c01cls
-        calc = c01cls.ClassCalc(json.load(open(tj)))
-    g = c01gen.Gen(r, ctx, maxdepth=maxdepth, calc=calc)
-    cases, k = [], 0
-    # corpus first (minimised past failures, hand-written edge cases)
+        return c01cls.ClassCalc(json.load(open(tj)))
+    return None
+
+
+def corpus_program(ctx, calc):
+    """corpus cases (minimised past failures, hand-written edge cases): (dense cases, sparse-container cases)"""
     cg = c01gen.CorpusGen(calc)
+    dense, sparse, k = [], [], 0
     for fn, lines in load_corpus():
         try:
             case, k = cg.load(lines, k)
-            cases.append(case)
+            (sparse if any(l.startswith(("svec", "smat")) for l in lines) else dense).append(case)
             ctx.count("corpus_cases")
         except Exception as ex:
             ctx.broken("corpus", fn, f"corpus case cannot be rendered: {ex}")
+    return dense, sparse
+
+
+def gen_program(ctx, calc, ncases, nstmts, maxdepth, use_sparse):
+    """returns [(init ops, [(k, op, src, info)])]"""
+    r = ctx.rng.fork("c01-program")
+    g = c01gen.Gen(r, ctx, maxdepth=maxdepth, calc=calc)
+    g.use_sparse = use_sparse
+    cases, k = [], 100000        # statement numbers of the generated program (corpus uses 0..)
     for _ in range(ncases):
         init = g.new_case()
         stmts = []
@@ -265,7 +274,32 @@ def run(ctx):
     ncases, nstmts, maxdepth, per_tu = (30, 8, 3, 24) if ctx.quick else (60, 10, 4, 30)
     if os.environ.get("C01_ONLY_CORPUS"):      # development aid: corpus cases only
         ncases = 0
-    program = gen_program(ctx, ncases, nstmts, maxdepth, per_tu)
+    calc = load_calc()
+    # ---- 1. corpus first: its own small program
+    dense_c, sparse_c = corpus_program(ctx, calc)
+    sparse_ok = True
+    if dense_c or sparse_c:
+        cases_d, tus, _ = render(dense_c + sparse_c, 1000)
+        nd = len(dense_c)
+        for cname, flags in CONFIGS:
+            exe = compile_program(ctx, f"c01-corpus-{cname}", tus, flags)
+            if not exe or isinstance(exe, list):
+                continue
+            if nd:
+                core.correspond(ctx, f"K-C01-corpus[{cname}]", cases_d[:nd], [exe], [drv], classify, max_report=12, keep_prefix=100000)
+            if cases_d[nd:]:
+                bad = core.correspond(ctx, f"K-C01-corpus-sparse[{cname}]", cases_d[nd:], [exe], [drv], classify,
+                                      max_report=12, keep_prefix=100000)
+                sparse_ok = sparse_ok and bad == 0
+    ctx.cov["sparse_operands_in_generated_program"] = sparse_ok
+    if not sparse_ok:
+        ctx.log("sparse container corpus fails on this tree: generated programs use dense operands only")
+    if ncases == 0:
+        ctx.cov["evaluations"] = ctx.cov.get("ops_compared", 0)
+        ctx.cov["distinct_nontrivial"] = ctx.cov.get("corpus_cases", 0)
+        return
+    # ---- 2. generated program
+    program = gen_program(ctx, calc, ncases, nstmts, maxdepth, sparse_ok)
     total = sum(len(st) for _, st in program)
     # statements the C++ compiler rejects (combinations the library cannot instantiate and the rule
     # table does not tell us about, e.g. mixed-orientation kernels) are dropped and counted
@@ -284,12 +318,12 @@ def run(ctx):
         return
     record_distribution(ctx, cases, infos)
     ctx.sample({"case": cases[len(cases) // 2][-4:]})
-    configs = CONFIGS
-    for cname, flags in configs:
+    for cname, flags in CONFIGS:
         exe = compile_program(ctx, f"c01-{cname}", tus, flags)
         if not exe or isinstance(exe, list):
             continue
-        core.correspond(ctx, f"K-C01[{cname}]", cases, [exe], [drv], classify, max_report=12, keep_prefix=sum(1 for o in cases[-1] if not o.startswith(("stmt", "red"))))
+        core.correspond(ctx, f"K-C01[{cname}]", cases, [exe], [drv], classify, max_report=12,
+                        keep_prefix=sum(1 for o in cases[-1] if not o.startswith(("stmt", "red"))))
 
 
 def replay(ctx, rep):
@@ -299,11 +333,7 @@ def replay(ctx, rep):
         print(json.dumps(rep.get("broken", rep), indent=1)[:3000])
         return 1
     translate(ctx)
-    calc = None
-    tj = os.path.join(GEN_DIR, "rules.json")
-    if os.path.exists(tj):
-        from checks import c01cls
-        calc = c01cls.ClassCalc(json.load(open(tj)))
+    calc = load_calc()
     case, _ = c01gen.CorpusGen(calc).load([o for o in rep["ops"] if o.strip()], 0)
     cases, tus, _ = render([case], 1000)
     cblas = "cblas" in os.path.basename((rep.get("harness_cmd") or ["c01-default"])[0])
